@@ -1,0 +1,6 @@
+//go:build verif
+// +build verif
+
+package vars
+
+func VerifCacheLen() int { return programCache.VerifLen() }
